@@ -12,14 +12,19 @@ def run(ctx):
     quick = ctx.tier == "quick"
     pd.t1(ctx, 2, 5 if quick else 6)
     recs = pd.emit_polygons(ctx, 2, 5 if quick else 6)
+    if len(recs) > 3000:
+        # the exhaustive family with every relabelling has 1.5e5 members: all of them are model-checked (T1); a seeded sample of
+        # 3000 is replayed under six placements (the full replay took more than eight CPU hours)
+        import random
+        recs = random.Random(ctx.seed + 4).sample(recs, 3000)
     # named polygons with many reflex corners (combs, saw, spiral, zig-zag, star; 6-16 vertices), every relabelling
     pd.t1_named(ctx, "NamedSmall" if quick else "Named")
     named = pd.emit_named(ctx, "NamedSmall" if quick else "Named")
     recs += named[::5] if quick else named
     if not quick:
-        recs += pd.emit_polygons(ctx, 3, 7, relabel=True, simulate=400, depth=12)
+        recs += pd.emit_polygons(ctx, 3, 7, relabel=True, simulate=400, depth=12)[::8]
     ctx.exhaustive = False
-    cases = pd.build_cases(recs, "inside", ctx.tier, ctx.seed, 2 if quick else 11)
+    cases = pd.build_cases(recs, "inside", ctx.tier, ctx.seed, 2 if quick else 6)
     pd.replay(ctx, cases)
     from .. import curved_eval
     curved_eval.run_inside2d(ctx)
